@@ -61,7 +61,7 @@ Definition ex_ops : list op :=
     OTrunc true 1020 [] [];
     OEvict true [1; 2; 3] 1050;
     OOpen 2; OAppend 2 (Some 4) (Some 4); ORollback 2 [4];
-    ORestart [mkS 1 [1000] [1050] 0 None false (LF false) false 0; mkS 3 [] [1000] 1 None true (LF false) false 0] 0;
+    ORestart [mkS 1 [1000] [1050] 0 None false (LF false) false 0; mkS 3 [] [1000] 1 None true (LF false) false 0] 0 0;
     OTrunc true 1040 [(3, 1)] [(3, 1)] ].
 
 Example C52_nonvacuous :
@@ -81,7 +81,7 @@ Theorem C52_refuted_snapshot_head_chunks_uncounted :
               c_chunks (st_c (run 32 (ops ++ [OTrunc true 1300 [] []]))) = -1.
 Proof.
   exists [OOpen 0; OAppend 0 (Some 1) (Some 1); OCommit 0 [1] [LIn 1 1000 false false 0 0 true];
-          ORestart [mkS 1 [] [1000] 0 None false (LF false) false 1] 0].
+          ORestart [mkS 1 [] [1000] 0 None false (LF false) false 1] 0 0].
   split; [vm_compute; discriminate | vm_compute; reflexivity].
 Qed.
 
@@ -93,7 +93,7 @@ Proof.
   exists [OOpen 0; OAppend 0 (Some 1) (Some 1); OCommit 0 [1] [LIn 1 978 false false 0 0 true];
           OTrunc true 998 [] [];
           OOpen 1; OAppend 1 (Some 2) (Some 2); OCommit 1 [2] [LIn 2 1009 false false 0 0 true];
-          ORestart [mkS 1 [] [1009] 0 None false (LF false) false 0] 1].
+          ORestart [mkS 1 [] [1009] 0 None false (LF false) false 0] 1 0].
   vm_compute; discriminate.
 Qed.
 
